@@ -1067,6 +1067,12 @@ uint32_t adfFileWrite ( struct AdfFile * const file,
 
     if (n==0) return (n);
 /*puts("adfWriteFile");*/
+    /* no valid block is buffered although the file has data (an earlier
+       transfer failed): nothing can be stored through this handle before a
+       seek has positioned it again - as adfFileRead refuses to read */
+    if ( file->curDataPtr == 0 && file->fileHdr->byteSize > 0 )
+        return 0;
+
     const unsigned blockSize = file->volume->datablockSize;
 
     uint8_t * const dataPtr = ( isOFS ( file->volume->dosType ) ) ?
